@@ -62,7 +62,7 @@ func (a *recAppender) Write(b []byte) {
 func idCode(p, s int) int { return p*100 + s }
 func idName(c int) string { return fmt.Sprintf("%c%d", 'a'+c/100, c%100) }
 
-type asyncOp byte // 'E' enabled event, 'D' event below the logger's level, 'W' raw write
+type asyncOp byte // 'E' enabled event, 'D' event below the logger's level, 'W' raw write, 'Z' raw write of zero length (nil / empty / buf[:0])
 
 type asyncCfg struct {
 	policy    log.BufferFullPolicy
@@ -87,6 +87,7 @@ type asyncObs struct {
 	returned  map[string]bool
 	err       string
 	bufAfter  int
+	empty     int // zero-length raw writes submitted
 }
 
 func policyName(p log.BufferFullPolicy) string {
@@ -196,6 +197,18 @@ func (c asyncCfg) run(o *asyncObs) {
 					e.Tag = "_t"
 					e.Fields = []log.Field{log.Int("id", idCode(p, s))}
 					l.Append(e)
+				case 'Z':
+					// an empty payload is a payload: it is forwarded (or discarded by policy and counted) like any
+					// other and must not be taken for anything else by the worker
+					o.empty++
+					switch o.empty % 3 {
+					case 0:
+						l.Write(nil)
+					case 1:
+						l.Write([]byte{})
+					default:
+						l.Write(buf[:0])
+					}
 				case 'W':
 					buf = append(buf[:0], id...)
 					o.submitted["W:"+id] = true
@@ -283,7 +296,12 @@ func asyncCheck(prop string, c asyncCfg, o *asyncObs, x *zzvrt.Exec) (string, []
 		fmt.Fprintf(&sb, "%d:%s;", ai, strings.Join(a.items, ","))
 		seen := map[string]int{}
 		var delivered []string
+		nEmpty := 0
 		for _, it := range a.items {
+			if it == "W:" {
+				nEmpty++
+				continue
+			}
 			id := it
 			if i := strings.IndexByte(it, '@'); i >= 0 {
 				id = it[:i]
@@ -317,8 +335,12 @@ func asyncCheck(prop string, c asyncCfg, o *asyncObs, x *zzvrt.Exec) (string, []
 		}
 		if c.refLevel == "" || c.refLevel == "INFO" {
 			// conservation (the reference accepts everything that is submitted: events are at WARN)
-			if int64(len(seen))+o.counter != int64(len(o.submitted)) {
-				add("C04", "conservation", fmt.Sprintf("appender %d: delivered %d + discarded %d != submitted %d (delivered=%v)", ai, len(seen), o.counter, len(o.submitted), delivered))
+			if int64(len(seen)+nEmpty)+o.counter != int64(len(o.submitted)+o.empty) {
+				add("C04", "conservation", fmt.Sprintf("appender %d: delivered %d (+%d empty writes) + discarded %d != submitted %d (+%d empty writes) (delivered=%v)", ai, len(seen), nEmpty, o.counter, len(o.submitted), o.empty, delivered))
+			}
+			if nEmpty > o.empty || (c.policy == log.BufferFullPolicyBlock && nEmpty != o.empty) {
+				add("C04", "empty-write-count", fmt.Sprintf("appender %d received %d zero-length writes, %d were submitted", ai, nEmpty, o.empty))
+				add("C12", "write-missing", fmt.Sprintf("appender %d received %d zero-length writes, %d were submitted", ai, nEmpty, o.empty))
 			}
 			if c.policy == log.BufferFullPolicyBlock {
 				if o.counter != 0 {
@@ -331,8 +353,8 @@ func asyncCheck(prop string, c asyncCfg, o *asyncObs, x *zzvrt.Exec) (string, []
 				}
 			}
 			// C05: everything accepted (not discarded) is at the appender when Stop returns
-			if int64(len(o.submitted))-o.counter > int64(len(seen)) {
-				add("C05", "stop-flush", fmt.Sprintf("after Stop returned appender %d has %d items, %d were accepted", ai, len(seen), int64(len(o.submitted))-o.counter))
+			if int64(len(o.submitted)+o.empty)-o.counter > int64(len(seen)+nEmpty) {
+				add("C05", "stop-flush", fmt.Sprintf("after Stop returned appender %d has %d items, %d were accepted", ai, len(seen)+nEmpty, int64(len(o.submitted)+o.empty)-o.counter))
 			}
 		}
 		// C06: which item an overflow drops. Discard never drops a buffered item, so every prefill
@@ -440,6 +462,15 @@ func init() {
 			reg(prop, asyncCfg{policy: pol, prefill: 98, gate: "tokens5", layout: true, refLevel: "INFO", producers: []string{"EE", "WE"}}, "qt", 2, 3)
 			reg(prop, asyncCfg{policy: pol, prefill: 0, refLevel: "INFO", nAppender: 2, producers: []string{"EE", "EW"}}, "qt", 2, 3)
 		}
+	}
+	// zero-length raw writes among the other items (C04 C06 C12: free worker and a nearly full buffer; C05: Stop racing)
+	for _, pol := range pols {
+		for _, prop := range []string{"C04", "C06", "C12"} {
+			reg(prop, asyncCfg{policy: pol, prefill: 0, producers: []string{"ZE", "WZ"}}, "qt", 2, 3)
+			reg(prop, asyncCfg{policy: pol, prefill: 99, gate: "tokens5", producers: []string{"ZW", "EZ"}}, "qt", 2, 3)
+		}
+		reg("C05", asyncCfg{policy: pol, prefill: 2, stopRace: true, producers: []string{"ZWE"}}, "qt", 2, 3)
+		reg("C05", asyncCfg{policy: pol, prefill: 100, gate: "helper", stopRace: true, producers: []string{"ZW"}}, "qt", 2, 3)
 	}
 	// C04 with Stop racing the drain (the statement is about the moment Stop returns, whatever is still
 	// queued when it is called): backlog of 0 / 2 / 50 / 99 items + one producer, free and slow worker
